@@ -145,13 +145,30 @@ func (w *World) absorbedResult(c *ssa.Call, i int) ssa.Value {
 			continue
 		}
 		v := retOperand(r, i)
-		if k, isC := v.(*ssa.Const); isC && (k.IsNil() || k.Value == nil) {
-			continue
+		// a function with defers returns through result cells: what was stored
+		// into the cell is what is returned
+		var cands []ssa.Value
+		if u, ok := v.(*ssa.UnOp); ok {
+			if al, ok := u.X.(*ssa.Alloc); ok && al.Parent() == h {
+				for _, ref := range *al.Referrers() {
+					if st, ok := ref.(*ssa.Store); ok && st.Addr == ssa.Value(al) {
+						cands = append(cands, st.Val)
+					}
+				}
+			}
 		}
-		if val != nil && val != v {
-			return nil
+		if len(cands) == 0 {
+			cands = []ssa.Value{v}
 		}
-		val = v
+		for _, cv := range cands {
+			if k, isC := cv.(*ssa.Const); isC && (k.IsNil() || k.Value == nil) {
+				continue
+			}
+			if val != nil && val != cv {
+				return nil
+			}
+			val = cv
+		}
 	}
 	return val
 }
